@@ -649,7 +649,47 @@ def guard_literals(ctx, fi, astnode, g=None, expand_bools=True):
     if nid is None:
         return path_literals(astnode, fi.node)
     exp = expander(fi.node, is_boolish) if expand_bools else None
-    return g.dominating_literals(nid, expand=exp)
+    return g.dominating_literals(nid, expand=exp) + _collected_filter_literals(fi, astnode)
+
+
+def _collected_filter_literals(fi, astnode):
+    """collect-then-act: the node lies in ``for x in L`` where L is a local bound exactly once to
+    ``[x' for x' in I if c(x')]`` (the elements themselves, filtered): inside the loop c(x) holds
+    for the loop variable -- the conditions of the comprehension are guards of the loop body"""
+    import copy
+    out = []
+    cur = astnode
+    while getattr(cur, '_parent', None) is not None and cur is not fi.node:
+        cur = cur._parent
+        if not (isinstance(cur, ast.For) and isinstance(cur.iter, ast.Name) and
+                isinstance(cur.target, ast.Name)):
+            continue
+        L = cur.iter.id
+        defs = [n for n in ast.walk(fi.node) if isinstance(n, ast.Assign) and
+                any(is_name(t, L) for t in n.targets)]
+        stores = [n for n in ast.walk(fi.node) if isinstance(n, ast.Name) and n.id == L and
+                  isinstance(n.ctx, (ast.Store, ast.Del))]
+        if len(defs) != 1 or len(stores) != 1:
+            continue
+        v = defs[0].value
+        if isinstance(v, ast.Call) and call_name(v) in ('list', 'tuple') and len(v.args) == 1:
+            v = v.args[0]
+        if not (isinstance(v, (ast.ListComp, ast.GeneratorExp)) and len(v.generators) == 1 and
+                isinstance(v.generators[0].target, ast.Name) and
+                is_name(v.elt, v.generators[0].target.id)):
+            continue
+        cv = v.generators[0].target.id
+
+        class Ren(ast.NodeTransformer):
+            def visit_Name(self, n):
+                if n.id == cv:
+                    return ast.copy_location(ast.Name(id=cur.target.id, ctx=n.ctx), n)
+                return n
+        for c in v.generators[0].ifs:
+            e = ast.fix_missing_locations(Ren().visit(copy.deepcopy(c)))
+            from sa.variance import split_literals
+            out += split_literals(e, True)
+    return out
 
 
 def inlined(ctx, fi, depth=2):
@@ -981,6 +1021,12 @@ def child_keeps_only_own_layer(ctx, rep, R):
             if isinstance(f, ast.For) and any(x is node for b in f.body for x in ast.walk(b)):
                 loop = f
         src = iter_source(loop.iter)[0] if loop is not None else None
+        if isinstance(src, ast.Name):
+            # names collected first (their filter already counts as a guard, see guard_literals)
+            vals = [v for k_, v in single_assignments(fn).items() if k_ == src.id]
+            if vals and isinstance(vals[0], (ast.ListComp, ast.GeneratorExp)) and \
+                    len(vals[0].generators) == 1 and norm(vals[0].elt) == norm(vals[0].generators[0].target):
+                src = iter_source(vals[0].generators[0].iter)[0]
         if isinstance(src, ast.Call) and isinstance(src.func, ast.Attribute) and \
                 src.func.attr in ('keys', 'copy') and not src.args:
             src = src.func.value
